@@ -5,6 +5,7 @@ import (
 	"encoding/json"
 	"fmt"
 	"os"
+	"os/exec"
 	"path/filepath"
 	"runtime"
 	"sort"
@@ -101,6 +102,34 @@ func checkDeterminism(c *c02Case) (key, msg string, collide bool) {
 		}
 		if out != first || fatal != firstFatal {
 			return "C02/output-differs-between-runs:" + c.Kind, fmt.Sprintf("run 1 and run %d (GOMAXPROCS=%d) of the same input differ\n--- run 1\n%s%s\n--- run %d\n%s%s\n--- input\n%s", i+1, procs[i%len(procs)], first, firstFatal, i+1, out, fatal, c02Show(c)), collide
+		}
+	}
+	// a sample of cases also through the built command as separate processes: exit status and stdout
+	if hx.Hash(c02Show(c))%4 == 0 {
+		if _, err := os.Stat(actionlintBin); err == nil {
+			firstOut, firstExit := "", 0
+			for i := 0; i < 4; i++ {
+				args := append([]string{"-oneline", "-no-color"}, c.Targets...)
+				cmd := exec.Command(actionlintBin, args...)
+				cmd.Dir = w.Root
+				cmd.Env = append(os.Environ(), fmt.Sprintf("GOMAXPROCS=%d", procs[i%len(procs)]))
+				var so, se bytes.Buffer
+				cmd.Stdout, cmd.Stderr = &so, &se
+				exit := 0
+				if err := cmd.Run(); err != nil {
+					if ee, ok := err.(*exec.ExitError); ok {
+						exit = ee.ExitCode()
+					} else {
+						return "harness/c02-cannot-run-binary", err.Error(), collide
+					}
+				}
+				out := so.String() + "\n--stderr--\n" + se.String()
+				if i == 0 {
+					firstOut, firstExit = out, exit
+				} else if out != firstOut || exit != firstExit {
+					return "C02/output-differs-between-runs:" + c.Kind, fmt.Sprintf("process run 1 and %d of the actionlint command differ (exit %d vs %d)\n--- run 1\n%s\n--- run %d\n%s\n--- input\n%s", i+1, firstExit, exit, firstOut, i+1, out, c02Show(c)), collide
+				}
+			}
 		}
 	}
 	return "", "", collide
